@@ -617,7 +617,9 @@ def ansi_transition(objs, R, C, pre, sym, vi, expected, col, fixed_followup=None
     completed = all(e[4] == 'INIT' for e in expected)
     bad = ansi_invariants(o, R, C, exc, completed)
     if bad:
-        col.add(bad, case, {'exception': ('%s: %s' % (type(exc).__name__, exc)) if exc else None, 'observed': raw_state(o)}, sig)
+        col.add(bad, case, {'input': 'emulator %dx%d in parser state %s with parameters %s, cursor %s, region %s: feed %r' % (
+                                R, C, pre[4], list(pre[5]), list(pre[1]), list(pre[3]), sym),
+                            'exception': ('%s: %s' % (type(exc).__name__, exc)) if exc else None, 'observed': raw_state(o)}, sig)
         return
     got = proj_screen(o, ych, False)
     f, stack, head = proj_parser(o, huge)
@@ -630,7 +632,9 @@ def ansi_transition(objs, R, C, pre, sym, vi, expected, col, fixed_followup=None
     bad, fu, why = consequence(o, R, C)
     if bad:
         case['followup'] = fu
-        col.add(bad, case, {'after_symbol': observed, 'exception': why, 'observed': raw_state(o),
+        col.add(bad, case, {'input': 'emulator %dx%d in parser state %s with parameters %s, cursor %s, region %s: feed %r, then %s' % (
+                                R, C, pre[4], list(pre[5]), list(pre[1]), list(pre[3]), sym, ' '.join(fu)),
+                            'after_symbol': observed, 'exception': why, 'observed': raw_state(o),
                             'note': 'state after the symbol is outside the reference; the follow-up input then breaks the property'}, sig)
     else:
         col.count['drift'] += 1
@@ -1059,7 +1063,13 @@ def report_trace_failures(ctx, pid, traces, verdicts, stats):
             continue
         if v != 'ok' and v.startswith(pid + ':'):
             e = t['ev'][at - 2] if 2 <= at <= len(t['ev']) + 1 else None
-            stats.setdefault('fails', []).append((v, t['meta'], {'event_index': at - 1, 'event': e}, {
+            upto = t['ev'][:max(0, at - 1)]
+            what = (' '.join(x for ev_ in upto for x in ev_.get('syms', [])) if t['meta']['kind'] == 'ansi-trace' else
+                    '; '.join('%s(%s)' % (ev_['m'], ', '.join(map(str, ev_['a'] + ([repr(ev_['ch'])] if ev_.get('ch') else []))))
+                              for ev_ in upto))
+            stats.setdefault('fails', []).append((v, t['meta'], {'screen': '%dx%d' % (t['meta']['rows'], t['meta']['cols']),
+                                                                 'input_up_to_the_failing_event': what[-700:],
+                                                                 'event_index': at - 1, 'event': e}, {
                 'method': (e or {}).get('m'), 'rows': t['meta']['rows'], 'cols': t['meta']['cols']}))
         elif v != 'ok':
             raise tlc.TLCError('trace %s: verdict %s does not belong to %s' % (t['id'], v, pid))
